@@ -279,6 +279,28 @@ func (b c04Blocker) Handle(c *client.Conn, l *client.Line) {
 	}
 }
 
+// settled reports whether nothing is in flight inside dispatch apart from the deliberately parked
+// background handler: its own goroutine, and the dispatch goroutine that started it, which must be
+// *waiting* for its handlers (inside WaitGroup.Wait) - while that goroutine is still in its loop starting
+// handler goroutines, some handlers of the event do not exist as goroutines yet.
+func (r *c04Run) settled() bool {
+	want := r.residualFrames()
+	n := 0
+	for _, g := range strings.Split(goroutineDump(), "\n\n") {
+		if !(strings.Contains(g, "goirc/client.(*hSet).dispatch") || strings.Contains(g, "goirc/client.(*hNode).Handle") || strings.Contains(g, "goirc/client.(*Conn).dispatch")) {
+			continue
+		}
+		n++
+		if n > want {
+			return false
+		}
+		if !strings.Contains(g, "goirc/client.(*hNode).Handle") && !strings.Contains(g, "sync.(*WaitGroup).Wait") {
+			return false // a dispatch that is still starting handlers
+		}
+	}
+	return n == want
+}
+
 func dispatchFrames() int {
 	d := goroutineDump()
 	n := 0
@@ -467,7 +489,7 @@ func runC04(sc *c04Scenario) *Violation {
 		wg.Wait()
 		// ... and the goroutine dump that they have finished (a deliberately blocked background handler
 		// keeps its own goroutine and its dispatch goroutine alive)
-		if !waitCond(stallTimeout(), func() bool { return dispatchFrames() == r.residualFrames() }) {
+		if !waitCond(stallTimeout(), func() bool { return r.settled() }) {
 			return fail("handler dispatch did not finish (dead-lock while registering/removing from a handler?)")
 		}
 		r.mu.Lock()
@@ -666,7 +688,7 @@ func runC04Solo(r *c04Run, solo string, letterCase int) *Violation {
 		ok := waitCond(stallTimeout(), func() bool {
 			mu.Lock()
 			defer mu.Unlock()
-			return counts["first"] >= want["first"] && counts["second"] >= want["second"] && dispatchFrames() == r.residualFrames()
+			return counts["first"] >= want["first"] && counts["second"] >= want["second"] && r.settled()
 		})
 		mu.Lock()
 		got := fmt.Sprint(counts)
